@@ -253,16 +253,32 @@ func newClientRig() (*clientRig, error) {
 	if err != nil {
 		return nil, err
 	}
-	px, err := startProxy(srv.addr)
-	if err != nil {
-		srv.close()
-		return nil, err
-	}
-	cl := mtcp.NewMTCPClient(px.addr(), bpv7.MustNewEndpointID("dtn://c12-peer/"), false)
-	if err, _ := cl.Start(); err != nil {
+	// Start dials with the client's own 1 s timeout; on a starved machine the dial itself can time out. The CLA
+	// manager would retry a retryable start failure at its retry interval - so does the rig, with a fresh proxy
+	// (the proxy serves one connection). Environment handling, no verdict depends on it.
+	var px *proxy
+	var cl *mtcp.MTCPClient
+	var startErr error
+	for attempt := 0; attempt < 8; attempt++ {
+		px, err = startProxy(srv.addr)
+		if err != nil {
+			srv.close()
+			return nil, err
+		}
+		cl = mtcp.NewMTCPClient(px.addr(), bpv7.MustNewEndpointID("dtn://c12-peer/"), false)
+		var retry bool
+		if startErr, retry = cl.Start(); startErr == nil {
+			break
+		}
 		px.shutdown()
+		if !retry {
+			break
+		}
+		time.Sleep(time.Duration(250*(attempt+1)) * time.Millisecond)
+	}
+	if startErr != nil {
 		srv.close()
-		return nil, fmt.Errorf("client start: %v", err)
+		return nil, fmt.Errorf("client start: %v", startErr)
 	}
 	rig := &clientRig{srv: srv, px: px, client: cl, col: collect(cl.Channel())}
 	if err := waitClosed(px.accepted); err != nil {
